@@ -54,8 +54,8 @@ CLAIMS = {
           "", "Lean 4 proof + differential correspondence", "§0.1, §5 C18"),
  "C19": C("Lean: store well-formed after every history whatever aborted (C19_store_wf_history), no internal BUG abort in any later top-down session or bottom-up build (C19_no_bug_history_all, C07_bu_no_bug_history), later top-down sessions return from-scratch results after any mixed history with aborts (C19_results_after_abort_mixed; with writes under static roles: C01_full_history). " + CORR + "Panics injected at every operation, diagnosed violations, abort-repair-rebuild-rebuild histories; oracle: no BUG panic after an abort, results equal from-scratch results. Defect F4 found and repaired.",
           "spurious abort after an abort = finding K6.", "Lean 4 invariant proof + differential correspondence", "§0.1, §5 C19"),
- "C20": C("Lean: no cyclic/hidden/overlap abort for static-role programs in any history, top-down and bottom-up (C20_static_no_abort). " + CORR + "Role-change programs; oracle: an incremental abort implies the from-scratch build of all known tasks aborts.",
-          "role-changing programs: finding K3 (three patterns, kernel-checked), no positive theorem.", "Lean 4 invariant proof + differential correspondence", "§0.1, §5 C20"),
+ "C20": C("Lean: no cyclic/hidden/overlap abort for static-role programs in any history, top-down and bottom-up (C20_static_no_abort); for transitive static roles (readers reaching the generator through relays) the store invariant holds after every history and the first abort of any history is never a diagnosed violation, nor any abort after task panics for prefix-shaped relays (C20_trans_*); the unrestricted statement is refuted by a kernel-checked counterexample that reproduces on the real crates (K9). " + CORR + "Role-change programs; oracle: an incremental abort implies the from-scratch build of all known tasks aborts.",
+          "role-changing programs: finding K3 (three patterns, kernel-checked), no positive theorem; finding K9 after an aborted relay.", "Lean 4 invariant proof + differential correspondence", "§0.1, §5 C20"),
 }
 
 # properties whose Lean obligations are real theorems by now (the others are under construction)
